@@ -1405,10 +1405,17 @@ def _mp_visit_worker(ready_queue, done_event, callback):
     from queue import Empty
 
     while True:
+        # Sample the shutdown flag *before* polling the queue. The flag is only
+        # raised once every item has been flushed into the queue, so if it was
+        # already up and the queue then turns out to be empty, nothing more can
+        # arrive. Testing it only after the timeout could miss items enqueued
+        # between the timeout and the test.
+        done = done_event.is_set()
+
         try:
             args = ready_queue.get(True, timeout=1)
         except Empty:
-            if done_event.is_set():
+            if done:
                 break
             continue
 
